@@ -123,9 +123,10 @@ def run(ctx):
     for fn in db.all_fns():
         if fn["unit"] != "radicle_node.rlib":
             continue
-        for bb, callee in rules.field_mut_calls(fn, "buckets", r"limiter::RateLimiter"):
+        # Nb. matched by field name, whatever the path to it (`self.buckets` in the limiter, `self.limiter.buckets` elsewhere)
+        for bb, callee in rules.field_mut_calls(fn, "buckets"):
             bm.append((fn, bb, callee))
-        for bb, j, s_ in rules.field_writes(fn, "buckets", r"limiter::RateLimiter"):
+        for bb, j, s_ in rules.field_writes(fn, "buckets"):
             bm.append((fn, bb, "assignment"))
     ctx.floor("who:RateLimiter.buckets", len(bm), 1, "mutating uses of RateLimiter.buckets")
     for fn, bb, callee in bm:
